@@ -142,6 +142,27 @@ pub fn generate(s: &mut Session, tier: &str, rng: &mut Rng) {
         }
         s.mark_nontrivial();
     }
+    // ---- SOCKS5: every two-piece segmentation of the request, and byte by byte, for each address kind
+    let kinds: Vec<String> = vec!["d:6578616d706c652e6f7267:443".into(), "4:7f000001:8080".into(), "6:20010db8000000000000000000000001:53".into()];
+    for (ki, addr) in kinds.iter().enumerate() {
+        if ki == 2 && !thorough {
+            continue;
+        }
+        s.begin_case(&format!("handshake-socks5-every-cut:{}", ki));
+        let enc = unhex(&s.run(&format!("addr.enc s5 {}", addr))).unwrap_or_default();
+        let request = [vec![5u8, 1, 0], enc].concat();
+        let mut segs: Vec<Vec<Vec<u8>>> = (1..request.len()).map(|k| vec![request[..k].to_vec(), request[k..].to_vec()]).collect();
+        segs.push(request.iter().map(|b| vec![*b]).collect());
+        for q in segs {
+            let all: Vec<String> = std::iter::once(hex(&[5u8, 1, 0])).chain(q.iter().map(|p| hex(p))).collect();
+            let r = s.run(&format!("hs.run socks5 {} split=1 marker={}", all.join(";"), hex(marker)));
+            let want = format!("ok {} reply=050005000001000000000000 rest={}", addr, hex(marker));
+            if r != want {
+                s.oracle_fail("handshake-socks5", &format!("SOCKS5 CONNECT cut after {} byte(s) not completed exactly: {}", q[0].len(), &r[..r.len().min(100)]));
+            }
+        }
+        s.mark_nontrivial();
+    }
     // unsupported / malformed whole handshakes: no tunnel
     s.begin_case("handshake-refused");
     let bad: Vec<(&str, Vec<Vec<u8>>, Option<usize>)> = vec![
